@@ -277,12 +277,12 @@ func main() {
 		run.Hist("history.corpus")
 		exec(h)
 	}
-	for i := 0; i < run.N(14, 120); i++ {
+	for i := 0; i < run.N(10, 120); i++ {
 		r := run.R.Fork(uint64(1000 + i))
 		run.Hist("history.multi-chunk")
-		exec(genHist(r, big, "multi-chunk", 2+r.Intn(3), 8+r.Intn(10)))
+		exec(genHist(r, big, "multi-chunk", 2+r.Intn(3), 8+r.Intn(run.N(8, 14))))
 	}
-	for i := 0; i < run.N(100, 1200); i++ {
+	for i := 0; i < run.N(80, 1200); i++ {
 		r := run.R.Fork(uint64(500000 + i))
 		run.Hist("history.small-files")
 		exec(genHist(r, small, "small-files", 2+r.Intn(4), 10+r.Intn(25)))
